@@ -333,7 +333,13 @@ class Case(object):
                 for k in range(K):
                     if va[1 + k][0] == "cst" and vb[1 + k][0] in ("cst", "exc") and not same_value(vb[1 + k], va[1 + k], widening or mid in self.widened) or (vb[1 + k][0] == "cst" and va[1 + k][0] == "exc"):
                         raise Failure("map-differs-from-unused-twin", {"map": mid, "what": "value", "loc": l, "valuation": k, "used": va[1 + k], "twin": vb[1 + k]})
-            if a[1] != b[1]:
+            za, zb = a[1], b[1]
+            if widening or mid in self.widened:
+                # a widening operation may turn a stored vec into its widened form (the listed
+                # alternatives stay among the values): the marker is not a difference
+                za = [x.replace(", ...]", "]") for x in za]
+                zb = [x.replace(", ...]", "]") for x in zb]
+            if za != zb:
                 raise Failure("map-differs-from-unused-twin", {"map": mid, "what": "memory", "used": a[1][:6], "twin": b[1][:6]})
         if self._join_parts(self.mm.read(0, 160)) != self._join_parts(self.mm2.read(0, 160)):
             raise Failure("memorymap-differs-from-unused-twin", {"used": self._join_parts(self.mm.read(0, 160))[:8], "twin": self._join_parts(self.mm2.read(0, 160))[:8]})
